@@ -113,3 +113,54 @@ Definition check_case (c : obs * list (op * obs)) : list (nat * nat) :=
 Definition failing (cases : list (Z * (obs * list (op * obs)))) : list (Z * list (nat * nat)) :=
   filter (fun r => match snd r with [] => false | _ => true end)
          (map (fun c => (fst c, check_case (snd c))) cases).
+
+(* ---------- contexts (C03): code 4 = the observation after leaving a block differs from the one at entry,
+   code 5 = __exit__ raised.  Both are computed on the implementation's own observations.  Compared: membership
+   and rule of every reaction, the gene set of every reaction that is in the model at either end, model.genes with
+   back references, _model pointers and look-ups (the order of model.genes aside). ---------- *)
+Definition same_entries (a b : list eobs) : bool :=
+  Nat.eqb (length a) (length b) && forallb (fun e => existsb (e_eqb e) b) a && forallb (fun e => existsb (e_eqb e) a) b.
+Definition g_same (a b : gobs) : bool := g_eqb a b && Bool.eqb (go_lookup a) (go_lookup b).
+Fixpoint all2 {A} (f : A -> A -> bool) (l m : list A) : bool :=
+  match l, m with [], [] => true | a :: l', b :: m' => f a b && all2 f l' m' | _, _ => false end.
+Definition restored (a b : obs) : bool :=
+  Bool.eqb (o_shape a) (o_shape b) &&
+  all2 (fun x y => (ro_id x =? ro_id y) && Bool.eqb (ro_in x) (ro_in y) && rl_eqb (ro_rule x) (ro_rule y) &&
+                   (if ro_in x || ro_in y then same_entries (ro_genes x) (ro_genes y) else true)) (o_rx a) (o_rx b) &&
+  Nat.eqb (length (o_genes a)) (length (o_genes b)) &&
+  forallb (fun g => existsb (g_same g) (o_genes b)) (o_genes a) &&
+  forallb (fun g => existsb (g_same g) (o_genes a)) (o_genes b).
+
+Definition is_exit (o : cop) : bool := match o with Exit => true | _ => false end.
+Definition is_enter (o : cop) : bool := match o with Enter => true | _ => false end.
+
+Fixpoint check_csteps (c : cst) (synced : bool) (stack : list obs) (prev : obs) (steps : list (cop * obs)) (n : nat)
+  : list (nat * nat) :=
+  match steps with
+  | [] => []
+  | (o, ob) :: rest =>
+      let '(c', r) := cstep c o in
+      let c1 := negb synced || (agree (cur c') ob && res_eqb r (o_res ob)) in
+      let c3 := ginv_b ob in
+      let '(c4, c5, stack') :=
+        if is_enter o then (true, true, prev :: stack)
+        else if is_exit o then
+          match stack with
+          | e :: st' => (restored e ob, res_eqb (o_res ob) Ok, st')
+          | [] => (true, true, [])
+          end
+        else (true, true, stack) in
+      (if c1 then [] else [(n, 1%nat)]) ++ (if c3 then [] else [(n, 3%nat)]) ++
+      (if c4 then [] else [(n, 4%nat)]) ++ (if c5 then [] else [(n, 5%nat)]) ++
+      check_csteps c' (synced && c1) stack' ob rest (S n)
+  end.
+
+Definition check_ccase (c : obs * list (cop * obs)) : list (nat * nat) :=
+  let '(ob0, steps) := c in
+  let s0 := init (map ro_id (o_rx ob0)) in
+  (if agree s0 ob0 then [] else [(0%nat, 1%nat)]) ++ (if ginv_b ob0 then [] else [(0%nat, 3%nat)]) ++
+  check_csteps (mkC s0 []) true [] ob0 steps 1.
+
+Definition failing_ctx (cases : list (Z * (obs * list (cop * obs)))) : list (Z * list (nat * nat)) :=
+  filter (fun r => match snd r with [] => false | _ => true end)
+         (map (fun c => (fst c, check_ccase (snd c))) cases).
